@@ -136,4 +136,39 @@ theorem C16_average_order (xs ys : List ℝ) (hp : xs.Perm ys) (hne : xs ≠ [])
 theorem C16_average_is_mean (xs : List ℝ) (hne : xs ≠ []) :
     (xs.foldl Welford.push Welford.init).mean = xs.sum / xs.length := (C18.C18_welford xs hne).1
 
+theorem zip_fst_snd {β γ : Type} (d : List (γ × β)) : (d.map (·.1)).zip (d.map (·.2)) = d := by
+  induction d with
+  | nil => rfl
+  | cons x xs ih => simp [List.zip_cons_cons, ih]
+
+/-- per-channel metadata given as a dictionary lands on the channel named by its key, whatever the order
+in which the dictionary was written and whatever the order of the image's channels: selecting label `l`
+from `dict_to_array`'s result gives the dictionary's value for `l` -/
+theorem C16_dict_by_label {β : Type} (coords : List (String × List String)) (d : List (String × β)) (a : AttrVal β)
+    (h : dictToArray coords d = some a) (l : String) : a.sel l = d.lookup l := by
+  unfold dictToArray at h
+  split at h
+  · simp only [Option.some.injEq] at h
+    subst h
+    simp only [AttrVal.sel]
+    rw [zip_fst_snd]
+  · simp at h
+
+/-- … and the dictionary is refused (ValueError) exactly when its keys are not the labels of any
+coordinate of the image -/
+theorem C16_dict_refused {β : Type} (coords : List (String × List String)) (d : List (String × β)) :
+    dictToArray coords d = none ↔ ∀ c ∈ coords, sortLabels (d.map (·.1)) ≠ sortLabels c.2 := by
+  unfold dictToArray
+  split
+  · rename_i c hc
+    have := List.find?_some hc
+    have hm := List.mem_of_find?_eq_some hc
+    simp only [reduceCtorEq, false_iff, not_forall]
+    exact ⟨c, hm, by simpa using this⟩
+  · rename_i hn
+    simp only [true_iff]
+    intro c hc
+    have := List.find?_eq_none.mp hn c hc
+    simpa using this
+
 end C16
